@@ -926,7 +926,7 @@ theorem activate_true_quiet (s : Session) (block : Bytes) (now : Nat) :
   unfold Session.activate
   simp only [Bool.not_true, Bool.false_eq_true, if_false]
   split
-  · exact Quiet.of_out (QuietO.rearm _)
+  · exact ⟨rfl, rfl, QuietO.rearm _⟩
   · exact ⟨rfl, rfl, QuietO.refl _⟩
 
 /-- **Classification of the primitive steps**: every step is quiet, or handles an inbound packet, or is
